@@ -62,9 +62,8 @@ Theorem C08_definefun_capture_refuted :
     parse_model capture_text =
       Ok [mkC "define-fun" [AStr "f"; AList [ATerm (TSym "__a0" TBool)]; AType TBool; ATerm body];
           decl "y" TBool; mkC "assert" [ATerm t]] /\
-    forall I, wf_interp I ->
-              eval I t = VBool false /\
-              std_eval (sig_of [("y", TBool)]) I capture_expanded = Some (VBool true).
+    (forall I, eval I t = VBool false) /\
+    exists I, std_eval (sig_of [("y", TBool)]) I capture_expanded = Some (VBool true).
 Proof. exact definefun_capture_refuted. Qed.
 Print Assumptions C08_definefun_capture_refuted.
 
